@@ -240,6 +240,9 @@ pub fn part_b(check: &Check, args: &Args) {
         let mut reported: HashSet<String> = HashSet::new();
         let mut dials_checked = 0usize;
         let mut max_concurrent_pending = 0usize;
+        let mut own_dials: HashSet<usize> = HashSet::new();
+        let mut unrelated_dials = 0u64;
+        let strip = |a: &Multiaddr| -> Multiaddr { a.iter().filter(|c| !matches!(c, Protocol::P2p(_))).collect() };
         let batches = rng.range(4, 16);
         for _ in 0..batches {
             // ---- a batch of requests, opened and written without letting the server answer in between
@@ -272,6 +275,32 @@ pub fn part_b(check: &Check, args: &Args) {
                 check.inconclusive("C50b not quiescent after requests");
                 return;
             }
+            // ---- sometimes the application on the server opens an unrelated connection to a client whose dial-back is
+            //      still pending (its transport dials are the harness's own and are not judged as dial-backs)
+            if rng.chance(1, 4)
+                && let Some(p) = ongoing.keys().next().copied()
+                && let Some(i) = node_of.get(&p).copied()
+                && i >= 1
+            {
+                let before = net.board.dial_log().len();
+                // an address of the client that no dial-back request ever lists (requests use ports 4001 and 7001)
+                let own_addr = client_addr(i, 4999);
+                net.board.alias(&own_addr, &client_addr(i, 4001));
+                let _ = net.swarm(0).dial(DialOpts::peer_id(p).addresses(vec![own_addr.clone()]).condition(libp2p_swarm::dial_opts::PeerCondition::Always).build());
+                net.touch(0);
+                history.push(format!("server application dials node {i} directly while a dial-back to it is pending"));
+                if !net.run(2_000_000, sink!()) {
+                    check.inconclusive("C50b not quiescent after the application's own dial");
+                    return;
+                }
+                let after = net.board.dial_log();
+                for (idx, d) in after.iter().enumerate().skip(before) {
+                    if d.node == 0 && strip(&d.addr) == own_addr {
+                        own_dials.insert(idx);
+                    }
+                }
+                unrelated_dials += 1;
+            }
             // ---- resolve some of the pending dial-backs
             let pend = net.board.pending_manual();
             max_concurrent_pending = max_concurrent_pending.max(pend.len());
@@ -297,7 +326,7 @@ pub fn part_b(check: &Check, args: &Args) {
             // ---- quiescent point: judge the dial log
             let log = net.board.dial_log();
             let mut in_flight: HashMap<PeerId, usize> = HashMap::new();
-            for (idx, d) in log.iter().enumerate().filter(|(_, d)| d.node == 0) {
+            for (idx, d) in log.iter().enumerate().filter(|(i, d)| d.node == 0 && !own_dials.contains(i)) {
                 let Some(p) = trailing_peer(&d.addr) else {
                     if idx >= dials_checked {
                         pending_violations.push(("dialed-address-without-known-peer".into(), format!("server dialed {}", d.addr)));
@@ -355,6 +384,7 @@ pub fn part_b(check: &Check, args: &Args) {
         check.count("B_requests_refused", refused);
         check.count("B_dial_backs_succeeded", responses_ok);
         check.count("B_server_transport_dials", server_dials);
+        check.count("B_unrelated_application_dials_during_a_dial_back", unrelated_dials);
         check.count("B_clients_also_stored_as_server_with_foreign_ip", stored_foreign);
         check.count("B_histories_with_overlapping_pending_dial_backs", (max_concurrent_pending > 1) as u64);
         for (k, v) in &statuses {
